@@ -99,7 +99,7 @@ fn check(args: &[String]) {
     let (prop, seed) = common(args);
     let tier = arg(args, "--tier").unwrap_or("quick").to_string();
     let workers: u64 = arg(args, "--workers").and_then(|s| s.parse().ok()).unwrap_or(16);
-    let total: u64 = arg(args, "--total").and_then(|s| s.parse().ok()).unwrap_or(if tier == "quick" { 40_000 } else { 4_000_000 });
+    let total: u64 = arg(args, "--total").and_then(|s| s.parse().ok()).unwrap_or(if tier == "quick" { 200_000 } else { 20_000_000 });
     let budget: u64 = arg(args, "--budget-s").and_then(|s| s.parse().ok()).unwrap_or(if tier == "quick" { 120 } else { 1500 });
     let evidence = arg(args, "--evidence").map(|s| s.to_string()).unwrap_or(format!("/verif/evidence/{}.json", prop.name()));
     let replay_dir = arg(args, "--replay-dir").unwrap_or("/verif/replays").to_string();
